@@ -720,6 +720,23 @@ impl<F: Read + Write + Seek> Package<F> {
         self.check_catalog_rows(COLUMNS_TABLE_NAME, &columns_rows)?;
         self.check_catalog_rows(TABLES_TABLE_NAME, &tables_rows)?;
         self.check_catalog_rows(VALIDATION_TABLE_NAME, &validation_rows)?;
+        // ... and that none of the three inserts below can be refused once
+        // the first one has gone through (a key that is already there, a full
+        // catalog table): the catalogs of a file made elsewhere may describe
+        // tables that do not exist, `_Validation` routinely does.
+        for (catalog_name, rows) in [
+            (COLUMNS_TABLE_NAME, &columns_rows),
+            (TABLES_TABLE_NAME, &tables_rows),
+            (VALIDATION_TABLE_NAME, &validation_rows),
+        ] {
+            if self.tables.contains_key(catalog_name) {
+                Insert::into(catalog_name).rows(rows.clone()).check(
+                    self.comp.as_mut().unwrap(),
+                    &self.string_pool,
+                    &self.tables,
+                )?;
+            }
+        }
         // Not every MSI file has a _Validation table; without one there is
         // nowhere to record a value range, foreign key, category or
         // enumeration, so refuse them rather than lose them on the next open.
